@@ -10,7 +10,7 @@ import (
 	_ "kvassverif/node" // its specs (C16) must be registered before this package's init extends them
 )
 
-var realWorld = []string{"coordinator.Coordinator.Run (real cycles on the fake clock)", "discovery.TargetsDiscovery, explore.Explore, prom.ConfigManager wired as cmd/kvass/coordinator.go", "kubernetes.ReplicasManager / shardManager over a fake clientset", "shard.Shard + pkg/api over the simulated transport", "per pod a real sidecar: TargetsManager + store directory, Service (gin), Proxy, Injector, ConfigManager, scrape.Manager"}
+var realWorld = []string{"coordinator.Coordinator.Run (real cycles on the fake clock)", "discovery.TargetsDiscovery, explore.Explore, prom.ConfigManager wired as cmd/kvass/coordinator.go", "kubernetes.ReplicasManager / shardManager over a fake clientset", "shard.Shard + pkg/api over the simulated transport", "per pod a real sidecar: the command body of cmd/kvass/sidecar.go (TargetsManager + store directory, Service (gin), Proxy, Injector, ConfigManager, scrape.Manager, prom.Client)"}
 var stubWorld = []string{"Kubernetes API server (client-go fake) + StatefulSet controller stub (creates/deletes pods, volumes, status)", "Prometheus per shard (real config.Load + scrape.TargetsFromGroup on the generated file, scrape timers on the fake clock, head-series counter)", "Prometheus SD manager (sim emits full target-group maps)", "scrape targets (generated payloads, health, growth)", "network (simnet: requests park and are released in PRNG order with injected loss)"}
 
 func worldRun(g WGen, which cyc.Which, prop string) core.RunFunc {
